@@ -217,28 +217,42 @@ def factories(props=None):
 
 
 def recording_params_unit(props=None):
-    """recording_params(recording_parameters=None, **kwargs)(cls) registers the given parameters object -- or RecordingParameters(**kwargs) -- for
-    exactly that class and returns the class unchanged"""
+    """recording_params(recording_parameters=None, **kwargs)(cls) registers the given parameters object -- or a RecordingParameters built from the
+    keyword arguments, EACH FIELD FROM THE KEYWORD OF ITS OWN NAME (default when absent) -- for exactly that class and returns the class unchanged.
+    The function is CALLED with symbolic keyword values (whatever its parameter list looks like), not entered with a prepared frame."""
+    from pyvc.calls import call_function
+    from specs.tr_base import PARAM_FIELDS
     repo, spec, ex, st, selfv, fr, node, info = setup(TR + 'recording_params', 'raw', ['recording_parameters'])
-    rp = fr['recording_parameters']; given = spec.sym_params(st, 'given'); st.assume(z3.Or(rp == NONE, rp == given)); st.note(rp, 'RecordingParameters')
-    kwd = st.sym_obj('kwargs', 'dict'); st.frames[st.stack[-1]]['kwargs'] = kwd
-    for k_ in ('sampling_rate', 'ignore_enforced_sampling', 'skipped', 'copy_data_on_intercepion'):
-        pass
-    tbl = st.rd(selfv, '_classes_recording_params'); t0 = st.dcontents(tbl)
+    m_, cls_, _n, _i = repo.find(TR + 'recording_params')
+    given = spec.sym_params(st, 'given'); tbl = st.rd(selfv, '_classes_recording_params'); t0 = st.dcontents(tbl)
     cls_v = fresh('cls'); st.assume(Val.is_cls(cls_v)); other = fresh('other'); obl = []; n = 0
-    for s, oc in norm(ex.block(node.body, st)):
-        if oc[0] != 'return':
-            obl.append(Obl('C17/recording_params/returns_the_class_decorator', 'C17', s, z3.BoolVal(False), oc)); continue
-        for s2, r2 in ex.call_value(s.copy(), oc[1], [cls_v], {}, node):
-            n += 1
-            if r2[0] != 'val':
-                # RecordingParameters(**kwargs) with an unknown keyword raises TypeError: only when no parameters object was given
-                obl.append(Obl('C17/recording_params/raises_only_for_bad_keywords', 'C17', s2, rp == NONE, r2)); continue
-            t1 = s2.dcontents(tbl); reg = t1[1][cls_v]
-            obl.append(Obl('C17/recording_params/registers_parameters_for_exactly_this_class', ('C17', 'C11'), s2,
-                           z3.And(r2[1] == cls_v, t1[0][cls_v], z3.Implies(rp != NONE, reg == rp),
-                                  z3.Implies(rp == NONE, z3.And(Val.is_ref(reg), TYP(Val.addr(reg)) == K('RecordingParameters'), Val.addr(reg) > BASE)),
-                                  z3.Implies(other != cls_v, z3.And(t1[0][other] == t0[0][other], t1[1][other] == t0[1][other]))), r2))
+    st.pop()
+    kws = {}
+    for fl, srt in PARAM_FIELDS:
+        v = fresh('kw_' + fl); st.assume(z3.Or(Val.is_i(v), Val.is_r(v)) if srt == 'num' else Val.is_b(v)); kws[fl] = v
+    for label, args, kwargs in (('object', [selfv, given], {}), ('keywords', [selfv], dict(kws)), ('one_keyword', [selfv], {'copy_data_on_intercepion': kws['copy_data_on_intercepion']})):
+        for s, r in call_function(ex, st.copy(), node, m_.name, cls_, None, args, kwargs, 'recording_params'):
+            if r[0] != 'val':
+                obl.append(Obl('C17/recording_params/returns_the_class_decorator', 'C17', s, z3.BoolVal(False), r)); continue
+            for s2, r2 in ex.call_value(s.copy(), r[1], [cls_v], {}, node):
+                n += 1
+                if r2[0] != 'val':
+                    obl.append(Obl('C17/recording_params/documented_keywords_never_raise', 'C17', s2, z3.BoolVal(False), r2)); continue
+                t1 = s2.dcontents(tbl); reg = t1[1][cls_v]
+                frame_ = z3.And(r2[1] == cls_v, t1[0][cls_v], z3.Implies(other != cls_v, z3.And(t1[0][other] == t0[0][other], t1[1][other] == t0[1][other])))
+                if label == 'object':
+                    obl.append(Obl('C17/recording_params/registers_parameters_for_exactly_this_class', ('C17', 'C11'), s2, z3.And(frame_, reg == given), r2))
+                else:
+                    want = []
+                    for fl, srt in PARAM_FIELDS:
+                        got = s2.rd(reg, fl)
+                        if fl in kwargs:
+                            want.append(got == kwargs[fl])
+                        else:
+                            # documented defaults of RecordingParameters: record everything, nothing else switched on
+                            want.append(num(got) == 1 if srt == 'num' else got == B(False))
+                    obl.append(Obl('C17/recording_params/keyword_form_registers_a_new_object_with_each_field_from_its_own_keyword', ('C17', 'C11'), s2,
+                                   z3.And(frame_, Val.is_ref(reg), TYP(Val.addr(reg)) == K('RecordingParameters'), Val.addr(reg) > BASE, *want), r2))
     return [info, repo.find('playback.tape_recorder:RecordingParameters.__init__')[3]], obl, {'paths': n, 'forks': 0}
 
 
